@@ -22,6 +22,9 @@ import Mathlib.Analysis.Real.Sqrt
 import Mathlib.Tactic.Ring
 import Mathlib.Tactic.Linarith
 import Mathlib.Tactic.Positivity
+import Mathlib.Tactic.FieldSimp
+import Mathlib.Analysis.SpecialFunctions.Complex.Arg
+import Mathlib.Analysis.SpecialFunctions.Trigonometric.Inverse
 
 set_option linter.unusedSimpArgs false
 set_option linter.unusedVariables false
@@ -325,6 +328,85 @@ theorem C07_norm_spacelike (E0 x0 y0 z0 E1 x1 y1 z1 : ℝ)
   refine ⟨?_, ?_⟩
   · unfold invMassRe; rw [if_pos hc]
   · unfold invMassIm; rw [if_pos hc]; congr 1; ring
+
+/-! ## `Theta` and `Phi` (regenerated) are the polar and the azimuthal angle -/
+
+open Ampverif.Gen.C07 in
+/-- The unfolding of `Theta(p0 + p1)` is `arccos(p_z/|p⃗|)`: it lies in `[0, π]`, and for `p⃗ ≠ 0`
+`|p⃗| cos θ = p_z`, `|p⃗| sin θ = p_T` (the transverse momentum `√(p_x²+p_y²)`). -/
+theorem C07_theta_polar (E0 x0 y0 z0 E1 x1 y1 z1 : ℝ)
+    (hp : 0 < (x0 + x1) ^ 2 + (y0 + y1) ^ 2 + (z0 + z1) ^ 2) :
+    theta E0 x0 y0 z0 E1 x1 y1 z1
+        = Real.arccos ((z0 + z1) / Real.sqrt ((x0 + x1) ^ 2 + (y0 + y1) ^ 2 + (z0 + z1) ^ 2)) ∧
+    0 ≤ theta E0 x0 y0 z0 E1 x1 y1 z1 ∧ theta E0 x0 y0 z0 E1 x1 y1 z1 ≤ Real.pi ∧
+    Real.sqrt ((x0 + x1) ^ 2 + (y0 + y1) ^ 2 + (z0 + z1) ^ 2) * Real.cos (theta E0 x0 y0 z0 E1 x1 y1 z1)
+        = z0 + z1 ∧
+    Real.sqrt ((x0 + x1) ^ 2 + (y0 + y1) ^ 2 + (z0 + z1) ^ 2) * Real.sin (theta E0 x0 y0 z0 E1 x1 y1 z1)
+        = Real.sqrt ((x0 + x1) ^ 2 + (y0 + y1) ^ 2) := by
+  set X := x0 + x1
+  set Y := y0 + y1
+  set Z := z0 + z1
+  set n := Real.sqrt (X ^ 2 + Y ^ 2 + Z ^ 2) with hn
+  have n0 : 0 < n := Real.sqrt_pos.2 hp
+  have nsq : n ^ 2 = X ^ 2 + Y ^ 2 + Z ^ 2 := Real.sq_sqrt hp.le
+  have hdef : theta E0 x0 y0 z0 E1 x1 y1 z1 = Real.arccos (Z / n) := by
+    unfold theta; congr 1; rw [div_eq_inv_mul]
+  have hz2 : Z ^ 2 ≤ n ^ 2 := by rw [nsq]; nlinarith [sq_nonneg X, sq_nonneg Y]
+  have habs : |Z| ≤ n := abs_le_of_sq_le_sq' hz2 n0.le |>.2 |> fun h => by
+    rcases abs_le.2 ⟨(abs_le_of_sq_le_sq' hz2 n0.le).1, h⟩ with h'; exact h'
+  have hlo : -1 ≤ Z / n := by
+    rw [le_div_iff₀ n0]; have := (abs_le.1 habs).1; linarith
+  have hhi : Z / n ≤ 1 := by
+    rw [div_le_iff₀ n0]; have := (abs_le.1 habs).2; linarith
+  refine ⟨hdef, ?_, ?_, ?_, ?_⟩
+  · rw [hdef]; exact Real.arccos_nonneg _
+  · rw [hdef]; exact Real.arccos_le_pi _
+  · rw [hdef, Real.cos_arccos hlo hhi]; field_simp
+  · rw [hdef, Real.sin_arccos]
+    have e : 1 - (Z / n) ^ 2 = (Real.sqrt (X ^ 2 + Y ^ 2) / n) ^ 2 := by
+      rw [div_pow, div_pow, nsq, Real.sq_sqrt (show (0 : ℝ) ≤ X ^ 2 + Y ^ 2 by positivity)]; field_simp; ring
+    rw [e, Real.sqrt_sq (div_nonneg (Real.sqrt_nonneg _) n0.le)]; field_simp
+
+open Ampverif.Gen.C07 in
+/-- The unfolding of `Phi(p0 + p1)` is `atan2(p_y, p_x)`, the argument of `p_x + i·p_y`: it lies in
+`(−π, π]`, and for `p_T ≠ 0`: `p_T cos φ = p_x`, `p_T sin φ = p_y`. Together with
+`C07_theta_polar`: `p⃗ = |p⃗| (sin θ cos φ, sin θ sin φ, cos θ)`. -/
+theorem C07_phi_azimuth (E0 x0 y0 z0 E1 x1 y1 z1 : ℝ)
+    (hpt : 0 < (x0 + x1) ^ 2 + (y0 + y1) ^ 2) :
+    phi E0 x0 y0 z0 E1 x1 y1 z1 = Complex.arg ⟨x0 + x1, y0 + y1⟩ ∧
+    -Real.pi < phi E0 x0 y0 z0 E1 x1 y1 z1 ∧ phi E0 x0 y0 z0 E1 x1 y1 z1 ≤ Real.pi ∧
+    Real.sqrt ((x0 + x1) ^ 2 + (y0 + y1) ^ 2) * Real.cos (phi E0 x0 y0 z0 E1 x1 y1 z1) = x0 + x1 ∧
+    Real.sqrt ((x0 + x1) ^ 2 + (y0 + y1) ^ 2) * Real.sin (phi E0 x0 y0 z0 E1 x1 y1 z1) = y0 + y1 := by
+  set X := x0 + x1
+  set Y := y0 + y1
+  have pt0 : 0 < Real.sqrt (X ^ 2 + Y ^ 2) := Real.sqrt_pos.2 hpt
+  have hnorm : ‖(⟨X, Y⟩ : ℂ)‖ = Real.sqrt (X ^ 2 + Y ^ 2) := Complex.norm_eq_sqrt_sq_add_sq _
+  have hne : (⟨X, Y⟩ : ℂ) ≠ 0 := by
+    intro h; rw [← norm_eq_zero, hnorm] at h; exact pt0.ne' h
+  refine ⟨rfl, ?_, ?_, ?_, ?_⟩
+  · exact Complex.neg_pi_lt_arg _
+  · exact Complex.arg_le_pi _
+  · unfold phi; rw [Complex.cos_arg hne, hnorm]; field_simp; try rfl
+  · unfold phi; rw [Complex.sin_arg, hnorm]; field_simp; try rfl
+
+open Ampverif.Gen.C07 in
+/-- spherical decomposition of the summed three-momentum by the regenerated `Theta` and `Phi` -/
+theorem C07_theta_phi_spherical (E0 x0 y0 z0 E1 x1 y1 z1 : ℝ)
+    (hpt : 0 < (x0 + x1) ^ 2 + (y0 + y1) ^ 2) :
+    let n := Real.sqrt ((x0 + x1) ^ 2 + (y0 + y1) ^ 2 + (z0 + z1) ^ 2)
+    let θ := theta E0 x0 y0 z0 E1 x1 y1 z1
+    let φ := phi E0 x0 y0 z0 E1 x1 y1 z1
+    x0 + x1 = n * Real.sin θ * Real.cos φ ∧ y0 + y1 = n * Real.sin θ * Real.sin φ ∧
+    z0 + z1 = n * Real.cos θ := by
+  intro n θ φ
+  have hp : 0 < (x0 + x1) ^ 2 + (y0 + y1) ^ 2 + (z0 + z1) ^ 2 := by positivity
+  obtain ⟨_, _, _, hc, hs⟩ := C07_theta_polar E0 x0 y0 z0 E1 x1 y1 z1 hp
+  obtain ⟨_, _, _, hcφ, hsφ⟩ := C07_phi_azimuth E0 x0 y0 z0 E1 x1 y1 z1 hpt
+  refine ⟨?_, ?_, hc.symm⟩
+  · show x0 + x1 = n * Real.sin θ * Real.cos φ
+    rw [hs, hcφ]
+  · show y0 + y1 = n * Real.sin θ * Real.sin φ
+    rw [hs, hsφ]
 
 /-! ## Non-vacuity -/
 
